@@ -25,6 +25,7 @@ PID = "C07"
 import holopy as hp
 from holopy.scattering import (Sphere, Spheres, Spheroid, calc_holo, calc_field, calc_intensity,
                                Mie, Multisphere, Tmatrix, MieLens)
+from holopy.scattering.theory import Lens
 from holopy.core.metadata import make_subset_data, update_metadata, detector_points, detector_grid
 
 U = 0.1
@@ -40,6 +41,8 @@ def theories():
         ("Tmatrix/spheroid", Spheroid(n=1.59, r=(0.4, 0.6), rotation=(0.0, 0.3, 0.2),
                                       center=(0.43, 0.31, 5.0)), None),
         ("MieLens/sphere", Sphere(n=1.59, r=0.5, center=(0.43, 0.31, 5.0)), MieLens(lens_angle=0.9)),
+        # the numerical lens wrapper takes detector points at any heights (the analytic theory refuses them)
+        ("Lens(Mie)/sphere", Sphere(n=1.59, r=0.5, center=(0.43, 0.31, 5.0)), Lens(0.9, Mie(False, False), 40, 40)),
     ]
 
 
@@ -98,7 +101,7 @@ def run(ctx):
     ctx.rule = ("TLC enumerates all grids up to MaxN x MaxN (incl. 1xN) x 2 spacings per axis x 2 "
                 "origins per axis x every crop window x 3 point orders x 3 two-height point lists, with exact element positions; "
                 "each state is replayed with a real theory (rotating over Mie, layered Mie, "
-                "Multisphere, T-matrix, MieLens); distinct = (grid, view, theory); non-trivial = "
+                "Multisphere, T-matrix, MieLens, Lens(Mie)); distinct = (grid, view, theory); non-trivial = "
                 "view differs from the plain grid")
     ctx.assumptions = ["values compared at 1e-12 (vectorised kernels may differ in the last ulp between array lengths)"]
     tol = quant.from_mb(quant.tol("Tol_view_commute"))
